@@ -1,4 +1,5 @@
 import SFV.Proofs.TdmReshape
+import SFV.Proofs.TdmNames
 
 /-!
 # C13 — a time-domain program means its explicit loop, however it is unrolled
@@ -29,6 +30,16 @@ theorem unroll_flat_loop (cfg : Cfg) (rolled : List TCmd) (shots : Nat) (q : Lis
       (List.range shots).flatMap fun s => (List.range cfg.timebins).flatMap fun i =>
         binCmds cfg rolled (regAt cfg false (s * cfg.timebins + i) q) i :=
   shotsLoop_shift cfg rolled shots q
+
+/-- **a loop variable means the array of its index, whatever its name looks like.**  `apply_op` resolves a
+symbolic argument through the *name* of its symbol in `parameters = dict(zip(names, arrays))`, the `i`-th
+name being `"p" + str(i)`; for every number of arrays (`p10`, `p11`, … next to `p1`) this is the `i`-th
+array, i.e. the model's index-based `resolve` used in all theorems above and below. -/
+theorem loop_variable_by_name (cfg : Cfg) (t i : Nat) (h : i < cfg.params.length) :
+    lookupName (parametersDict cfg) (SFV.Io.pName i) = some (cfg.params.getD i []) ∧
+    resolveNamed cfg t (SFV.Io.pName i) = some ((cfg.params.getD i []).getD (t % cfg.timebins) 0) ∧
+    resolve cfg t (.var i) = .const ((resolveNamed cfg t (SFV.Io.pName i)).getD 0) :=
+  ⟨lookupName_pName cfg i h, (resolve_eq_named cfg t i h).1, (resolve_eq_named cfg t i h).2⟩
 
 /-- **slot × time ↦ subsystem is a bijection at every time**, for every shift (default band-wise
 rotation, any integer, none) and in the space variant: the register at bin `g` is a rearrangement of
@@ -244,6 +255,16 @@ theorem reshape_space_unrolled_instance :
   decide
 
 /-! ## non-vacuity -/
+
+/-- twelve arrays: the loop variables `p1`, `p10`, `p11` denote three different arrays -/
+def exCfg12 : Cfg :=
+  { N := [2], timebins := 2, params := (List.range 12).map fun (i : Nat) => [((10 * i : Nat) : Int), ((10 * i + 1 : Nat) : Int)] }
+example : (11 : Nat) < exCfg12.params.length ∧
+    resolve exCfg12 3 (.var 1) = .const 11 ∧ resolve exCfg12 3 (.var 10) = .const 101 ∧
+    resolve exCfg12 3 (.var 11) = .const 111 := by decide
+example : resolveNamed exCfg12 3 (SFV.Io.pName 11) = some 111 ∧ resolveNamed exCfg12 3 (SFV.Io.pName 1) = some 11 :=
+  ⟨(loop_variable_by_name exCfg12 3 11 (by decide)).2.1.trans (by decide),
+   (loop_variable_by_name exCfg12 3 1 (by decide)).2.1.trans (by decide)⟩
 
 /-- the hypotheses of `reshape_correct` / `run_samples_correct` hold for a real unrolled circuit:
 two bands measured in the order (band 1, band 0), two shots, three bins -/
